@@ -179,8 +179,8 @@ func Main(t *testing.T, h *Harness) {
 	if err != nil {
 		t.Fatal(err)
 	}
-	wo := bufio.NewWriterSize(fo, 1<<20)
-	wi := bufio.NewWriterSize(fi, 1<<20)
+	wo := bufio.NewWriterSize(fo, 1<<16)
+	wi := bufio.NewWriterSize(fi, 1<<16)
 
 	st := stats{Dist: map[string]int{}}
 	seen := map[string]struct{}{}
@@ -190,11 +190,15 @@ func Main(t *testing.T, h *Harness) {
 		if op == "" || strings.HasPrefix(op, "#") {
 			return
 		}
-		impl := safeExec(h, op)
+		// the op is on disk before it runs and the answer right after: if the implementation kills the
+		// process (a panic in another goroutine, a fatal error) ops.txt ends with the history that did it
 		wo.WriteString(op)
 		wo.WriteByte('\n')
+		wo.Flush()
+		impl := safeExec(h, op)
 		wi.WriteString(impl)
 		wi.WriteByte('\n')
+		wi.Flush()
 		st.Evaluations++
 		if strings.HasPrefix(impl, "panic") {
 			st.Panics++
